@@ -692,66 +692,6 @@ func main() {
 			calls: map[string]string{"isStatusUnderstood": "src_is_status_understood", "isHeuristicallyCacheableCode": "src_is_heuristically_cacheable"}}, intByName, intCE)
 
 	})
-	group("SrcHit.v", func() {
-		// the decision of handleCacheHit: which of serve / serve stale and revalidate in the background / 504 / validate
-		hit := &fnSpec{file: "roundtripper.go", name: "handleCacheHit", coq: "src_decide_hit", params: "(q : request) (stored : stored_entry) (now : Z)", ret: "hit_decision",
-			syms: symtab{
-				// opaque bindings: the variable, and ("=" + variable) the call it must be bound to
-				"ccReq": {"", kO}, "=ccReq": {"internal.ParseCCRequestDirectives(req.Header)", kO},
-				"ccResp": {"", kO}, "=ccResp": {"internal.ParseCCResponseDirectives(stored.Data.Header)", kO},
-				"freshness": {"", kO}, "=freshness": {"r.fc.CalculateFreshness(stored, ccReq, ccResp)", kO},
-				"respNoCacheFieldsRaw, hasRespNoCache := ccResp.NoCache()":                     {"", kO},
-				"respNoCacheFieldsSeq, isRespNoCacheQualified := respNoCacheFieldsRaw.Value()": {"", kO},
-				"hasRespNoCache":                         {"match resp_no_cache (parse_cc (e_hdr stored)) with Some _ => true | None => false end", kB},
-				"isRespNoCacheQualified":                 {"match hit_qualified stored with Some _ => true | None => false end", kB},
-				"freshness.IsStale":                      {"f_stale (calculate_freshness stored (parse_cc (q_hdr q)) (parse_cc (e_hdr stored)) now)", kB},
-				"freshness.Expired":                      {"f_expired (calculate_freshness stored (parse_cc (q_hdr q)) (parse_cc (e_hdr stored)) now)", kB},
-				"freshness.ReqMaxAgeExceeded":            {"f_req_max_age_exceeded (calculate_freshness stored (parse_cc (q_hdr q)) (parse_cc (e_hdr stored)) now)", kB},
-				"freshness.Age.Value":                    {"f_age (calculate_freshness stored (parse_cc (q_hdr q)) (parse_cc (e_hdr stored)) now)", kD},
-				"freshness.UsefulLife":                   {"f_life (calculate_freshness stored (parse_cc (q_hdr q)) (parse_cc (e_hdr stored)) now)", kD},
-				"r.clock.Since(freshness.Age.Timestamp)": {"time_sub now (f_age_ts (calculate_freshness stored (parse_cc (q_hdr q)) (parse_cc (e_hdr stored)) now))", kD},
-				"ccResp.MustRevalidate()":                {"resp_must_revalidate (parse_cc (e_hdr stored))", kB},
-				"ccReq.NoCache()":                        {"req_no_cache (parse_cc (q_hdr q))", kB},
-				"ccReq.OnlyIfCached()":                   {"req_only_if_cached (parse_cc (q_hdr q))", kB},
-			},
-			leaves:   map[string]string{"make504Response": "D504", "r.serveFromCache": "DServe", "r.handleStaleWhileRevalidate": "DServeSWR"},
-			optMatch: map[string][2]string{"ccResp.StaleWhileRevalidate()": {"resp_swr (parse_cc (e_hdr stored))", "D"}},
-		}
-		hit.gotoLeaf = func(t *translator, label string) string {
-			if label != "revalidate" {
-				die("handleCacheHit: unexpected label %s", label)
-			}
-			// at the label: the validation request is built from the stored validators, and NoStale says whether a stale fallback is excluded
-			body := t.labels[label]
-			var noStale ast.Expr
-			sawCond, sawRTT, sawHVR := false, false, false
-			for _, s := range body {
-				ast.Inspect(s, func(n ast.Node) bool {
-					switch x := n.(type) {
-					case *ast.KeyValueExpr:
-						if exprString(x.Key) == "NoStale" {
-							noStale = x.Value
-						}
-					case *ast.CallExpr:
-						switch exprString(x.Fun) {
-						case "withConditionalHeaders":
-							sawCond = len(x.Args) == 2 && exprString(x.Args[0]) == "req" && exprString(x.Args[1]) == "stored.Data.Header"
-						case "r.roundTripTimed":
-							sawRTT = true
-						case "r.vrh.HandleValidationResponse":
-							sawHVR = true
-						}
-					}
-					return true
-				})
-			}
-			if noStale == nil || !sawCond || !sawRTT || !sawHVR {
-				die("handleCacheHit: the revalidate block is not withConditionalHeaders(req, stored.Data.Header); roundTripTimed; HandleValidationResponse{NoStale: ...}")
-			}
-			return "DRevalidate (" + t.boolExpr(noStale) + ")"
-		}
-		emitFn(hit, rootByName, rootCE)
-	})
 	group("SrcTables.v", func() {
 		emitFn(&fnSpec{file: "helpers.go", name: "IsNonErrorStatus", coq: "src_is_non_error_status", params: "(status : Z)", ret: "bool", syms: symtab{"status": {"status", kZ}}}, intByName, intCE)
 		emitFn(&fnSpec{file: "helpers.go", name: "IsUnsafeMethod", coq: "src_is_unsafe_method", params: "(method : bytes)", ret: "bool", syms: symtab{"method": {"method", kS}}}, intByName, intCE)
